@@ -224,7 +224,7 @@ def check_C04(tier):
     t = tier == "thorough"
     engine_witness(c, "AggEmptyGroupDropped", "CoreMenu", lines="LinesAgg")
     engine_run(c, "agg", "AggMenu", lines="LinesAgg", maxlines=4 if t else 3, maxfiles=1, tdefs=("plain",) if not t else ("plain", "knn", "vdef"), modes=("batch",))
-    engine_sim(c, "agg", "AggMenu", lines="LinesAgg", maxlines=10, num=2500 if t else 200, modes=("batch",))
+    engine_sim(c, "agg", "AggMenu", lines="LinesRich", maxlines=10, num=2500 if t else 200, modes=("batch",))
     c.rule, c.assumptions, c.exhaustive = ENGINE_RULE, ENGINE_ASSUME, True
     return c.finish()
 
@@ -237,7 +237,7 @@ def check_C03(tier):
     # impl -> spec, semantic: random typed expression trees (depth <= 4) evaluated by the real engine; TLC evaluates Expr.Eval on each
     trace_check(c, "expr", "Trace_Expr", 12000 if t else 4000, "expr", "random expression trees vs Expr.Eval", constants={"Dev": set()}, rounds=3 if t else 1, env={"TZ": "UTC"})
     laws_trace(c, 2 if t else 1, 300 if t else 100)
-    engine_sim(c, "select", "SelectMenu", lines="Lines4", maxlines=10, num=1500 if t else 120)
+    engine_sim(c, "select", "SelectMenu", lines="LinesRich", maxlines=10, num=1500 if t else 120)
     c.rule, c.assumptions, c.exhaustive = ENGINE_RULE, ENGINE_ASSUME, True
     return c.finish()
 
@@ -245,6 +245,11 @@ def check_C03(tier):
 def check_C05(tier):
     c = Check("C05", tier, "model_checking")
     t = tier == "thorough"
+    # the joined file is read by its own loop: every line of it (CRLF, last line without newline, a byte that is not UTF-8, > 10 lines) must reach the index
+    rr = tlc("MC_Reader", cfg_text(constants={"MaxLen": 5 if t else 4, "MaxFiles": 1, "Dev": set()}, invariants=["ExactlyOnceInOrder", "Emit"]), "reader-c05", workers=W)
+    expect_holds(rr, "Reader (joined file)"); c.add_tlc(rr)
+    c.add_report(vh_replay("reader", rr.replay_path, "reader-c05"), "FileExecutor / join loader line reading vs Reader.tla (replay)")
+    engine_run(c, "long-joined-file", "JoinMenu", lines="LinesJ", maxlines=2, maxfiles=1, joinsets="JoinSetsLong", tdefs=("plain",))
     engine_run(c, "join", "JoinMenu", lines="LinesJ", maxlines=4 if t else 3, maxfiles=1, tdefs=("plain", "knn") if t else ("plain",))
     engine_sim(c, "join", "JoinMenu", lines="LinesJ", maxlines=8, num=1500 if t else 120, modes=("batch",))
     c.rule, c.assumptions, c.exhaustive = ENGINE_RULE, ENGINE_ASSUME, True
@@ -268,7 +273,7 @@ def check_C08(tier):
     c = Check("C08", tier, "model_checking")
     t = tier == "thorough"
     engine_run(c, "distinct", "DistinctMenu", lines="Lines4", maxlines=5 if t else 4, maxfiles=1, modes=("batch", "incr"), tdefs=("plain",))
-    engine_sim(c, "distinct", "DistinctMenu", lines="Lines4", maxlines=12, num=2000 if t else 150)
+    engine_sim(c, "distinct", "DistinctMenu", lines="LinesRich", maxlines=12, num=2000 if t else 150)
     c.rule, c.assumptions, c.exhaustive = ENGINE_RULE, ENGINE_ASSUME, True
     return c.finish()
 
@@ -280,7 +285,7 @@ def check_C11(tier):
     engine_run(c, "incr-agg", "AggMenu", lines="LinesAgg", maxlines=3, maxfiles=1, modes=("incr",), tdefs=("plain",))
     engine_follow_run(c, "tables", "CoreMenu", lines="LinesAgg", maxlines=4 if t else 3, tdefs=("plain", "knn"), sample=4000 if t else 1200)
     laws_trace(c, 2 if t else 1, 300 if t else 100)
-    engine_sim(c, "incr", "AggMenu", lines="LinesAgg", maxlines=10, num=2000 if t else 150, modes=("incr",))
+    engine_sim(c, "incr", "AggMenu", lines="LinesRich", maxlines=10, num=2000 if t else 150, modes=("incr",))
     engine_sim(c, "incr-core", "CoreMenu", lines="Lines4", maxlines=12, num=1000 if t else 80, modes=("incr",))
     c.rule, c.assumptions, c.exhaustive = ENGINE_RULE, ENGINE_ASSUME, True
     return c.finish()
@@ -330,6 +335,8 @@ def check_C12(tier):
     c.add_report(rep, reg("FileExecutor / join loader line reading vs Reader.tla (replay)", "reader"))
     # the same files through the whole engine: statements over inputs split into files (Engine.tla)
     engine_run(c, "files", "CoreLimitMenu", lines="Lines3", maxlines=4 if t else 3, maxfiles=3, tdefs=("plain",))
+    # a joined file of 34 lines (with non-rows among them): every line of it must reach the join
+    engine_run(c, "long-joined-file", "JoinMenu", lines="LinesJ", maxlines=2, maxfiles=1, joinsets="JoinSetsLong", tdefs=("plain",))
     laws_trace(c, 2 if t else 1, 300 if t else 100)
     c.rule = ("TLC enumerates every byte content up to MaxLen over {x, LF, CR, a byte that is not UTF-8, U+00E9} and every cut into 1..MaxFiles files; each case is written to real files "
               "(x also expanded to runs of 8191/8192/8193 bytes around the BufReader capacity for every 50th case) and read by FileExecutor (SELECT x, COUNT(*), total_lines) and by the join loader. "
@@ -541,7 +548,7 @@ def check_C15(tier):
     engine_run(c, "order", "OrderMenu", lines="LinesAgg", maxlines=4 if t else 3, maxfiles=1, tdefs=("plain",),
                invs=["TypeOK", "BatchRefinesSem", "PermLaw", "CombineLaw"], props=())
     laws_trace(c, 3 if t else 1, 400 if t else 150)
-    engine_sim(c, "order", "OrderMenu", lines="LinesAgg", maxlines=8, num=1500 if t else 120, modes=("batch",), invs=["TypeOK", "BatchRefinesSem"])
+    engine_sim(c, "order", "OrderMenu", lines="LinesRich", maxlines=8, num=1500 if t else 120, modes=("batch",), invs=["TypeOK", "BatchRefinesSem"])
     c.rule = ENGINE_RULE + (" PermLaw quantifies over all permutations of each enumerated input, CombineLaw over all cut points; the real code is run on every ordering (TLC enumerates all sequences) and, on the "
                             "repository's corpora, on seeded shuffles and cuts whose outputs are related by Trace_Laws.tla.")
     c.assumptions, c.exhaustive = ENGINE_ASSUME + ["REAL sums are only compared when exactly representable (dyadic)"], True
